@@ -478,3 +478,136 @@ def is_none_test(e, negate=False):
         if isinstance(e.ops[0], ast.IsNot if negate else ast.Is):
             return e.left
     return None
+
+
+# ---- must-hold guard facts (forward dataflow over the CFG's atomic test nodes) ------------------------------------------------
+_FLIP = {"<": ">", ">": "<", "<=": ">=", ">=": "<="}
+_NEG = {"<": ">=", ">=": "<", ">": "<=", "<=": ">", "==": "!=", "!=": "==", "is": "is not", "is not": "is", "in": "not in", "not in": "in"}
+_OPS = {ast.Lt: "<", ast.LtE: "<=", ast.Gt: ">", ast.GtE: ">=", ast.Eq: "==", ast.NotEq: "!=", ast.Is: "is", ast.IsNot: "is not",
+        ast.In: "in", ast.NotIn: "not in"}
+
+
+def _canon_atom(l, op, r):
+    """(left, op, right) with > / >= rewritten as < / <= by swapping sides."""
+    if op in (">", ">="):
+        l, op, r = r, _FLIP[op], l
+    return (l, op, r)
+
+
+def atoms_of_test(test_ast, holds):
+    """Atomic facts implied by a CFG test node's expression being true (holds) or false.  A chained comparison that is false
+    implies nothing (it is a disjunction)."""
+    e = test_ast
+    if isinstance(e, ast.Compare):
+        ops = [_OPS.get(type(o)) for o in e.ops]
+        if None in ops:
+            return set()
+        terms = [unparse(e.left)] + [unparse(x) for x in e.comparators]
+        if holds:
+            return {_canon_atom(terms[i], ops[i], terms[i + 1]) for i in range(len(ops))}
+        if len(ops) == 1:
+            return {_canon_atom(terms[0], _NEG[ops[0]], terms[1])}
+        return set()
+    return {(unparse(e), "truthy" if holds else "falsy", "")}
+
+
+def must_facts(c, exc=True):
+    """node -> frozenset of atoms that hold on every path from the entry to (the start of) that node.  Facts mentioning a name or
+    attribute are dropped when it is re-bound (store nodes, loop targets, augmented assignments, deletes)."""
+    cached = getattr(c, "_must_facts", None)
+    if cached is not None and cached[0] == exc:
+        return cached[1]
+    TOP = None
+    IN = {n: TOP for n in c.nodes}
+    IN[c.entry] = frozenset()
+
+    def kills(n):
+        if n.kind in ("store", "augstore", "del", "fornext", "withitem") and n.ast is not None:
+            t = n.ast
+            if n.kind == "fornext":
+                t = n.ast.target
+            out = set()
+            for x in ast.walk(t) if not isinstance(t, (ast.Name, ast.Attribute, ast.Subscript)) else [t]:
+                if isinstance(x, (ast.Name, ast.Attribute, ast.Subscript)):
+                    out.add(unparse(x))
+            return out
+        return set()
+
+    def mentions(atom, texts):
+        import re
+        for tx in texts:
+            pat = r"(?<![\w.])" + re.escape(tx) + r"(?![\w])"
+            if re.search(pat, atom[0]) or re.search(pat, atom[2]):
+                return True
+        return False
+
+    work = [c.entry]
+    guard = 0
+    while work:
+        guard += 1
+        if guard > 200000:
+            raise AnalysisError("must_facts: no fixpoint")
+        n = work.pop()
+        cur = IN[n]
+        if cur is TOP:
+            continue
+        k = kills(n)
+        base = frozenset(a for a in cur if not mentions(a, k)) if k else cur
+        for m, l in n.succ:
+            if l == "exc" and not exc:
+                continue
+            out = base
+            if n.kind == "test" and l in ("T", "F"):
+                out = base | frozenset(atoms_of_test(n.ast, l == "T"))
+            new = out if IN[m] is TOP else (IN[m] & out)
+            if IN[m] is TOP or new != IN[m]:
+                IN[m] = new
+                work.append(m)
+    res = {n: (IN[n] if IN[n] is not TOP else frozenset()) for n in c.nodes}
+    try:
+        c._must_facts = (exc, res)
+    except AttributeError:
+        pass
+    return res
+
+
+def holds_at(c, node, l, op, r):
+    """Is the comparison  l op r  guaranteed on every path to `node` (either directly, or `<` when `<=` is asked)?"""
+    f = must_facts(c)[node]
+    a = _canon_atom(l, op, r)
+    if a in f:
+        return True
+    if a[1] == "<=" and ((a[0], "<", a[2]) in f or (a[0], "==", a[2]) in f or (a[2], "==", a[0]) in f):
+        return True
+    return False
+
+
+def concat_parts(e):
+    """String built by `+` and/or an f-string as a list of parts ('s', literal) / ('e', expression text); adjacent literals merged,
+    so that  "," + x  and  f",{x}"  compare equal.  None when a formatted value carries a conversion or a format spec."""
+    out = []
+
+    def add(kind, v):
+        if kind == "s" and out and out[-1][0] == "s":
+            out[-1] = ("s", out[-1][1] + v)
+        elif not (kind == "s" and v == ""):
+            out.append((kind, v))
+
+    def go(x):
+        if isinstance(x, ast.BinOp) and isinstance(x.op, ast.Add):
+            return go(x.left) and go(x.right)
+        if isinstance(x, ast.Constant) and isinstance(x.value, str):
+            add("s", x.value)
+            return True
+        if isinstance(x, ast.JoinedStr):
+            for v in x.values:
+                if isinstance(v, ast.Constant):
+                    add("s", v.value)
+                elif isinstance(v, ast.FormattedValue) and v.conversion == -1 and v.format_spec is None:
+                    add("e", unparse(v.value))
+                else:
+                    return False
+            return True
+        add("e", unparse(x))
+        return True
+    return out if go(e) else None
